@@ -149,8 +149,15 @@ func runC03(p *engine.Prog, r *engine.Report) {
 			if !ok {
 				continue
 			}
-			if !hdr.Dominates(b) {
-				probs2 = append(probs2, "return at "+p.Rel(ret.Pos())+" is reachable without running the loop over the discovered targets")
+			// the loop's exit edge (range exhausted) must lie on every path to a return
+			var done *ssa.BasicBlock
+			for _, sc := range hdr.Succs {
+				if sc != body {
+					done = sc
+				}
+			}
+			if done == nil || !(done == b || done.Dominates(b)) {
+				probs2 = append(probs2, "return at "+p.Rel(ret.Pos())+" is reachable without the loop over the discovered targets having run to its end")
 			}
 			if len(ret.Results) == 1 {
 				okAcc := false
